@@ -759,6 +759,16 @@ def forged_locked_keys(ctx, genuine):
         body = (d + ctx.rbytes(max(0, n - 84)))[:n]
         out.append(("%d bytes instead of 84" % n, base64.b64encode(body), False))
         out.append(("%d bytes instead of 84, version field egk?" % n, base64.b64encode((b"egk\x3f" + body[4:])[:n] if n >= 4 else body), False))
+    # every decoded length around the genuine 84 (83 / 82 bytes are 112 characters too: '=' / '==' padding)
+    for n in (range(60, 110) if full else sorted(set(list(range(78, 91)) + rng.sample(range(60, 110), 4)))):
+        if n != 84:
+            out.append(("%d bytes instead of 84 (%d characters)" % (n, 4 * ((n + 2) // 3)), base64.b64encode((ctx.rbytes(4) if rng.random() < 0.3 else d[:4]) + ctx.rbytes(n - 4)), False))
+    # every TEXT length 100..120, with no / one / two / three trailing '=' (well-formed padding or not)
+    for L in (range(100, 121) if full else sorted(set([108, 110, 111, 112, 113, 114, 116] + rng.sample(range(100, 121), 4)))):
+        for pad in range(4):
+            t = (genuine.rstrip(b"=") + base64.b64encode(ctx.rbytes(30)).rstrip(b"="))[:L - pad] + b"=" * pad
+            if t != genuine:
+                out.append(("a text of %d characters ending in %d '='" % (L, pad), t, False))
     g = genuine
     for label, t in (("no padding / cut", g[:-1]), ("one more '='", g + b"="), ("blank inside", g[:40] + b" " + g[40:]), ("line feed at the end", g + b"\n"),
                      ("URL-safe alphabet", g.replace(b"+", b"-").replace(b"/", b"_") if (b"+" in g or b"/" in g) else b"-" + g[1:]),
@@ -967,7 +977,91 @@ def c09_keyring_locations(ctx):
         w.close()
 
 
+# =========================================================================== C09: keyring field VALUES made of punctuation
+R3_PUNCT = ['"', "'", "=", "#", "[", "]", ";", ":", "\\", "/", "-", "~", "*", "?", "%", "$", "`", ",", ".", "!", "(", ")", "{", "}", "<", ">", "|", "&", "@", "^",
+            "+", "_", "\u00e9", "\u201d", "\u00ab", "\U0001F511"]
+R3_SHORT = ['""', "''", '"x', 'x"', '"x"', "'x'", "[]", "==", "\"'", '" "', '"\t"', '"""', "[Key]", "[Key", "Name", "Name = x", "= x", "#x", '"alice"', "\\\"", "x=",
+            '"=', "<x>", "${HOME}", "%s", "\u201cx\u201d"]
+
+
+@timed
+def c09_r3_keyring_values(ctx):
+    """A keyring FILE is untrusted bytes: sections whose Name / PublicKey / PrivateKey VALUE is a single punctuation character (every
+    ASCII punctuation mark used by configuration formats, some multi-byte ones) or a short string of them (quote pairs, brackets, field
+    keywords), written in several spellings (blanks / TABs around the '=', CRLF line end, no blanks), placed before or behind a
+    well-formed section, then read by `decrypt` and `encrypt` processes: exit 0, or exit 1 with an Error: line - never a panic (101),
+    abort, signal or hang (60 s)."""
+    rng = ctx.rng
+    full = ctx.thorough()
+    ks = pc.make_keys(ctx, 2)
+    S = pc.lock_keys([(ks[0][0], b"pw", ctx.rbytes(32))])
+    alice = sec_np(b"alice", ks[0][2], S[0])
+    w = pc.World(prefix="kv_c09val_")
+    try:
+        w.write("pt", ctx.rbytes(50))
+        w.write("kr0.txt", alice)
+        e0 = w.run(["encrypt", "pt", "-t", "alice", "-f", "alice", "-k", "kr0.txt", "-o", "ct", "--env-pass"], env=pc.env_pw(b"pw"))
+        if e0.rc != 0:
+            ctx.broken.append({"kind": "machinery", "what": "props_kvs.c09_r3_keyring_values: could not prepare a ciphertext: " + e0.errtext()[-200:]})
+            return
+        spell = [("F = V", lambda f, v: f + " = " + v), ("F=V", lambda f, v: f + "=" + v), ("TAB F =   V  ", lambda f, v: "\t" + f + " =   " + v + "  "),
+                 ("F = V CR", lambda f, v: f + " = " + v + "\r"), ("F =V TAB", lambda f, v: f + " =" + v + "\t")]
+        jobs = []
+
+        def add(field, val, sp, pos, cmd):
+            other = {"Name": "Name = mallory", "PublicKey": "PublicKey = " + ks[1][2].decode(), "PrivateKey": None}
+            lines = ["[Key]"]
+            for f in ("Name", "PublicKey", "PrivateKey"):
+                if f == field:
+                    lines.append(sp[1](f, val))
+                elif other[f]:
+                    lines.append(other[f])
+            sec = ("\n".join(lines) + "\n").encode("utf-8")
+            text = {"before": sec + b"\n" + alice, "behind": alice + b"\n" + sec, "alone": sec}[pos]
+            jobs.append({"i": len(jobs), "field": field, "val": val, "spell": sp[0], "pos": pos, "cmd": cmd, "text": text})
+        vals = R3_PUNCT + R3_SHORT
+        for field in ("Name", "PublicKey", "PrivateKey"):
+            for val in vals:
+                combos = [(sp, pos) for sp in spell for pos in ("before", "behind", "alone")]
+                for sp, pos in (combos if full else rng.sample(combos, 2 if (field == "Name" and len(val) == 1) else 1)):
+                    add(field, val, sp, pos, "decrypt-nobody")
+                if full or rng.random() < 0.12:
+                    add(field, val, rng.choice(spell), rng.choice(["before", "behind"]), rng.choice(["encrypt-alice", "decrypt-alice"]))
+
+        def one(j):
+            kr = "kr%d.txt" % j["i"]
+            w.write(kr, j["text"])
+            argv = {"decrypt-nobody": ["decrypt", "ct", "-t", "nobody", "-k", kr, "-o", "out%d" % j["i"], "--env-pass"],
+                    "decrypt-alice": ["decrypt", "ct", "-t", "alice", "-k", kr, "-o", "out%d" % j["i"], "--env-pass"],
+                    "encrypt-alice": ["encrypt", "pt", "-t", "alice", "-f", "alice", "-k", kr, "-o", "out%d" % j["i"], "--env-pass"]}[j["cmd"]]
+            j["run"] = w.run(argv, env=pc.env_pw(b"pw"), timeout=60)
+            return j
+        jobs = pmap(one, jobs)
+        nviol = 0
+        for j in jobs:
+            r = j["run"]
+            r.sig = -r.rc if r.rc < 0 else None
+            ctx.oracle_checks += 1
+            count(ctx, "keyring-value:" + j["field"])
+            count(ctx, "keyring-value:outcome:exit %d" % r.rc)
+            if r.rc == 0 and r.sig is None:
+                continue
+            eb = error_exit(r)
+            if eb:
+                nviol += 1
+                if nviol <= 6:
+                    viol(ctx, "C09 keyring value: a section whose %s value is %r (spelling '%s', section %s the well-formed one), read by %s"
+                         % (j["field"], j["val"], j["spell"], j["pos"], j["cmd"]), [r],
+                         "whatever bytes the keyring file holds, the tool ends with status 0, or status 1 and an Error: line - never a panic (status 101), "
+                         "abort or signal", eb, extra={"keyring": j["text"].decode("utf-8", "replace")})
+        ctx.evaluations += w.nruns
+        count(ctx, "proc:runs", w.nruns)
+    finally:
+        w.close()
+
+
 def c09_cli_hostile(ctx):
     """entry point for C09 (props.py)"""
     c09_forged_keys(ctx)
     c09_keyring_locations(ctx)
+    c09_r3_keyring_values(ctx)
